@@ -588,6 +588,10 @@ func validateOp(vm *VM, p Integer, spec operatorSpecifier, name Atom, env *Env) 
 		return Error(permissionError(operationCreate, permissionTypeOperator, name, env))
 	}
 
+	if p == 0 {
+		return nil // Priority 0 only removes an operator. It can't introduce a conflict.
+	}
+
 	// 6.3.4.3 There shall not be an infix and a postfix Operator with the same name.
 	switch spec.class() {
 	case operatorClassInfix:
